@@ -25,6 +25,76 @@ func (e *env) runE2E() {
 	e.e2eFile()
 }
 
+// runShellIn drives the shell client -> server direction: stdin messages of
+// the given sizes are handed to the session's Send channel (what the
+// WebSocket handler does with each client message), travel through
+// forwardShellClientData of A, B and D's shell handler into a real "cat",
+// whose echo comes back as stdout. Deterministic on the sending side: one case
+// per message, frames taken from the A -> B link.
+func (e *env) runShellIn(sizes []int) {
+	a, d := e.mesh.Nodes[0].Agent, e.mesh.Nodes[2].Agent
+	ctx, cancel := context.WithTimeout(context.Background(), 60*time.Second)
+	defer cancel()
+	sess, err := a.OpenShellStream(ctx, d.ID(), &shell.ShellMeta{Command: "cat"}, false)
+	if err != nil {
+		e.c.Fail("tunnel-open-failed", "shell-in: "+err.Error(), nil)
+		return
+	}
+	defer sess.Close()
+	// first message from the far end is the ACK
+	select {
+	case <-sess.Receive:
+	case <-time.After(20 * time.Second):
+		e.c.Fail("tunnel-open-failed", "shell-in: no ACK", nil)
+		return
+	}
+	up := func(ev tunnelmesh.FrameEvent) bool { return ev.From == 0 && ev.To == 1 && ev.Type == fStreamData }
+	for _, n := range sizes {
+		if n == 0 {
+			continue
+		}
+		data := e.c.Rand.Bytes(n)
+		m := e.rec.mark()
+		r := caseRec{Layer: "L1", Path: "shellin", Blocks: []int{n}}
+		select {
+		case sess.Send <- shell.EncodeStdin(data):
+		case <-sess.Done:
+		case <-time.After(10 * time.Second):
+		}
+		var echo []byte
+		deadline := time.After(15 * time.Second)
+	loop:
+		for len(echo) < n {
+			select {
+			case msg, ok := <-sess.Receive:
+				if !ok {
+					break loop
+				}
+				if len(msg) > 0 && msg[0] == shell.MsgStdout {
+					echo = append(echo, msg[1:]...)
+				}
+			case <-sess.Done:
+				break loop
+			case <-deadline:
+				break loop
+			}
+		}
+		for _, f := range e.rec.since(m, up) {
+			r.Frames = append(r.Frames, int(f.Length))
+		}
+		r.Got = len(echo)
+		r.OK = bytes.Equal(echo, data)
+		if !r.OK {
+			e.c.Fail("bytes-not-delivered:shellin", fmt.Sprintf("stdin message of %d bytes: %d bytes came back from cat, frames sent %v", n, len(echo), r.Frames), r)
+		}
+		e.record(r, true)
+		e.rec.trim()
+		if !r.OK {
+			return
+		}
+	}
+}
+
 func (e *env) e2eStream(kind string) {
 	a := e.mesh.Nodes[0].Agent
 	ctx, cancel := context.WithTimeout(context.Background(), 60*time.Second)
@@ -57,7 +127,13 @@ func (e *env) e2eStream(kind string) {
 		r := caseRec{Layer: "L2", Path: kind + "-down", Blocks: []int{n}}
 		werrCh := make(chan error, 1)
 		go func() { _, err := srv.Write(data); werrCh <- err }()
-		got, rerr := readExactly(conn, n, conn.SetReadDeadline)
+		var got []byte
+		var rerr error
+		if e.c.Rand.Chance(1, 2) {
+			got, rerr = readExactly(conn, n, conn.SetReadDeadline)
+		} else {
+			got, rerr = readChunked(conn, n, conn.SetReadDeadline, []int{e.c.Rand.Pick(1, 7, 100, 4096), e.c.Rand.Pick(1000, 16355, 16356, 16357, 65536)})
+		}
 		<-werrCh
 		r.Got = len(got)
 		r.OK = bytes.Equal(got, data)
